@@ -667,6 +667,9 @@ namespace
                 return BO->isAssignmentOp();
             if (auto* UO = dyn_cast<UnaryOperator>(St))
                 return UO->isIncrementDecrementOp();
+            // `(void)&object;` - the idiom that odr-uses (and thereby instantiates) a thread_local object
+            if (auto* CE = dyn_cast<ExplicitCastExpr>(St))
+                return CE->getCastKind() == CK_ToVoid;
             return false;
         }
 
